@@ -5,6 +5,8 @@
 From CR Require Import Model.Wildcard.
 From CR Require Import Proofs.WildcardSort.
 From CR Require Import Proofs.Wildcard.
+From CR Require Corr.C13.
+From CR Require Import Proofs.WildcardCorr13.
 From Coq Require Import Permutation Sorted.
 Local Open Scope N_scope.
 
@@ -20,6 +22,10 @@ Proof.
   intros l p. rewrite prefix_list_in. unfold eligible.
   split; intros [a [Hin [He Hm]]]; exists a; (split; [exact Hin|split; [|exact Hm]]); apply prefix_ok_iff, He.
 Qed.
+
+(* every advertised prefix is a /64 network (no host bits) *)
+Theorem C13_network : forall l p, In p (prefix_list 64 l) -> mask p 64 = p.
+Proof. exact (prefix_list_masked 64). Qed.
 
 (* each once ... *)
 Theorem C13_nodup : forall l, NoDup (prefix_list 64 l).
@@ -57,6 +63,14 @@ Proof.
   intros. destruct addrs as [l|]; cbn; split; try reflexivity; discriminate.
 Qed.
 
+(* the specification checker that is evaluated on the implementation's observed output (Corr.C13.holds,
+   written from the property text with plain arithmetic) accepts the model's output on every input *)
+Theorem C13_checker_accepts_model :
+  forall bits onlink autonomous valid preferred deprecated epoch now addrs,
+  Corr.C13.holds (Corr.C13.mkCase bits onlink autonomous valid preferred deprecated epoch now addrs
+    (prefix_Apply true 0 bits onlink autonomous valid preferred deprecated epoch now addrs)) = true.
+Proof. exact Proofs.WildcardCorr13.C13_checker_accepts_model. Qed.
+
 (* the sort is the stable one of the code: entries with equal keys keep their order (irrelevant here since
    the keys are distinct, recorded to justify the model of slices.SortStableFunc) *)
 Theorem C13_sort_stable : forall (k : N) (l : list N),
@@ -84,6 +98,7 @@ Proof.
 Qed.
 
 Print Assumptions C13_mem.
+Print Assumptions C13_network.
 Print Assumptions C13_nodup.
 Print Assumptions C13_sorted.
 Print Assumptions C13_set.
@@ -91,5 +106,6 @@ Print Assumptions C13_perm.
 Print Assumptions C13_dup.
 Print Assumptions C13_uniform.
 Print Assumptions C13_error.
+Print Assumptions C13_checker_accepts_model.
 Print Assumptions C13_sort_stable.
 Print Assumptions C13_example.
